@@ -67,10 +67,15 @@ def items(G):
     O = "TxOut.to_address"
 
     def sw():
-        cs = [c for c in G.calls_const_args(T, O, "startswith") if c[0] and isinstance(c[0][0], str)]
+        # `a.startswith("x") or a.startswith("y")` as well as `a.startswith(("x", "y"))`
+        cs = [c for c in G.calls_const_args(T, O, "startswith") if c[0] and isinstance(c[0][0], (str, tuple))]
         if not cs:
             _unloc("TxOut.to_address: startswith calls")
-        return [c[0][0] for c in cs], cs[0][1]
+        out = []
+        for c in cs:
+            a = c[0][0]
+            out += [a] if isinstance(a, str) else [x for x in a if isinstance(x, str)]
+        return out, cs[0][1]
     yield G.strs(F, "toAddrSegwitPrefixes", sw)
     yield G.nat(F, "toAddrV0", cmpv(T, O, 0, "Eq", int))
     yield G.nat(F, "toAddrV0LenA", cmpv(T, O, 1, "Eq", int))
